@@ -19,7 +19,8 @@
    The rule the code had before commit f444e80 (range length = UTF-8 BYTE length of the value) is
    kept here as [old_tokens]; it breaks the order on a literal with multi-byte characters
    ([old_token_end_in_bytes_refuted]). *)
-From GoldV Require Import Base Tokens Keywords LadderProofs RangeEnc Lexer LexerProofs.
+From GoldV Require Import Base Tokens Keywords AstKinds Tree Grammar LadderProofs ExprRT Encase RangeEnc DeclRT FileRT EnclRT
+                          Unlex UnlexProofs Lexer LexerProofs.
 From Coq Require Import Lia.
 
 (* ---------- lengths of the string readers ---------- *)
@@ -287,4 +288,41 @@ Proof.
   exists bytes_text. split.
   - vm_compute. intros (_ & _ & _ & _ & _ & H & _). destruct H as [H|[_ H]]; [discriminate|apply H; reflexivity].
   - apply lex_tord. vm_compute. reflexivity.
+Qed.
+
+(* ---------- the enclosure theorems for the tokens of a text ---------- *)
+
+Lemma tord_sub a ts b : tord (a ++ ts ++ b) -> tord ts.
+Proof. intro H. apply tord_app in H as (_ & H & _). apply tord_app in H as (H & _). exact H. Qed.
+
+(* whole files *)
+Theorem text_encloses text fuel ns :
+  nonempty_comments (fst (lex text)) = true -> Decls fuel (fst (lex text)) ns -> Forall enc_tree ns.
+Proof. intros Hc Hd. exact (file_encloses fuel _ ns Hd (lex_tord text Hc)). Qed.
+
+(* an expression anywhere in a text: ts is a contiguous part of the text's token list *)
+Theorem text_range_encloses text a ts b f n :
+  nonempty_comments (fst (lex text)) = true -> fst (lex text) = a ++ ts ++ b -> GExpr f ts n ->
+  forall m c, subnode m n -> In c (nchildren m) -> encloses (nrange m) (nrange c).
+Proof.
+  intros Hc He Hg. apply (range_encloses f ts n Hg). apply (tord_sub a ts b). rewrite <- He. apply lex_tord. exact Hc.
+Qed.
+
+Theorem text_innermost_is_ident text a ts b f n :
+  nonempty_comments (fst (lex text)) = true -> fst (lex text) = a ++ ts ++ b -> GExpr f ts n ->
+  forall t, subnode (mk_terminal t) n -> forall p, contains (trange t) p = true -> search p n = mk_terminal t.
+Proof.
+  intros Hc He Hg. apply (innermost_is_ident f ts n Hg). apply (tord_sub a ts b). rewrite <- He. apply lex_tord. exact Hc.
+Qed.
+
+(* printed lexemes: the condition is one on the lexemes *)
+Definition lx_nonempty_comments (lx : list lexeme) : bool :=
+  forallb (fun l => negb (tt_eqb (fst l) TComment && is_nil (snd l))) lx.
+
+Lemma nonempty_comments_obs ts : nonempty_comments ts = lx_nonempty_comments (map lx_obs ts).
+Proof. induction ts as [|t ts IH]; [reflexivity|]. unfold nonempty_comments, lx_nonempty_comments in *. cbn [map forallb]. rewrite IH. reflexivity. Qed.
+
+Theorem unlex_tord lx : forallb printable lx = true -> lx_nonempty_comments lx = true -> tord (fst (lex (unlex lx))).
+Proof.
+  intros Hp Hc. apply lex_tord. rewrite nonempty_comments_obs. destruct (lex_unlex lx Hp) as (-> & _). exact Hc.
 Qed.
